@@ -461,6 +461,12 @@ def _check_accept(f, b32, s, x, tag, label=""):
         if dct != want_d:
             bad = "+".join(sorted(n for n in want_d if not isinstance(dct, dict) or dct.get(n) != want_d[n])) or "extra-keys"
             f.add(f"{tag}/dict-ne-fields/{x.kind}/{bad}", f"{dct!r} want {want_d!r}")
+        elif isinstance(dct, dict):
+            # the caller owns what it was handed: emptying that dict must not change what the next call returns
+            dct.clear()
+            again = attempt(b32.deserialized_extended_key, s, return_dict=True)
+            if again != want_d:
+                f.add(f"{tag}/dict-ne-fields-after-caller-edited-earlier-result/{x.kind}", f"{again!r} want {want_d!r}")
 
 
 @st.composite
